@@ -18,7 +18,7 @@ type cvGen struct {
 	width   int  // max members of tuples / objects / known collections
 	dynSrc  bool // source types may contain placeholders
 	concStr bool // strings are concrete (needed when they meet number parsing)
-	optional bool
+	shortStr bool // strings are one symbolic byte
 }
 
 // ---------- types ----------
@@ -287,7 +287,7 @@ func (g *cvGen) leafString(tag string) cty.Value {
 	if g.concStr {
 		return cty.StringVal([]string{"1", "a", "true"}[vChoice(tag+"-s", 3)])
 	}
-	if vChoice(tag+"-slen", 2) == 0 {
+	if g.shortStr || vChoice(tag+"-slen", 2) == 0 {
 		return cty.StringVal(vStr(tag, 1, '0', '2'))
 	}
 	return cty.StringVal(vStr(tag, 4, 'a', 'u'))
@@ -733,6 +733,51 @@ func cvLossless(in, out cty.Type) bool {
 			}
 		}
 		return true
+	}
+	return false
+}
+
+// cvMapToOptionalDynamic characterises known finding F19: somewhere in the request a map-typed source position is
+// converted to an object type that has an optional attribute whose type contains a placeholder.
+func cvMapToOptionalDynamic(in, want cty.Type) bool {
+	switch {
+	case want.IsObjectType() && in.IsMapType():
+		for name := range want.OptionalAttributes() {
+			if want.AttributeType(name).HasDynamicTypes() {
+				return true
+			}
+		}
+		for _, at := range want.AttributeTypes() {
+			if cvMapToOptionalDynamic(in.ElementType(), at) {
+				return true
+			}
+		}
+	case want.IsObjectType() && in.IsObjectType():
+		for name, at := range want.AttributeTypes() {
+			if in.HasAttribute(name) && cvMapToOptionalDynamic(in.AttributeType(name), at) {
+				return true
+			}
+		}
+	case want.IsCollectionType() && in.IsCollectionType():
+		return cvMapToOptionalDynamic(in.ElementType(), want.ElementType())
+	case want.IsCollectionType() && in.IsTupleType():
+		for _, et := range in.TupleElementTypes() {
+			if cvMapToOptionalDynamic(et, want.ElementType()) {
+				return true
+			}
+		}
+	case want.IsCollectionType() && in.IsObjectType():
+		for _, at := range in.AttributeTypes() {
+			if cvMapToOptionalDynamic(at, want.ElementType()) {
+				return true
+			}
+		}
+	case want.IsTupleType() && in.IsTupleType() && in.Length() == want.Length():
+		for i := range want.TupleElementTypes() {
+			if cvMapToOptionalDynamic(in.TupleElementType(i), want.TupleElementType(i)) {
+				return true
+			}
+		}
 	}
 	return false
 }
